@@ -40,7 +40,7 @@ MANIFEST = {
 }
 
 WRITERS = ["SRTWriter", "WebVTTWriter", "MicroDVDWriter", "DFXPWriter", "SinglePositioningDFXPWriter", "LegacyDFXPWriter", "SAMIWriter", "SCCWriter"]
-SETS = ["plain", "spans", "unbalanced", "px-novideo", "two-langs", "empty", "scc", "styled", "unbalanced-two", "unsorted", "spans-redefined", "two-layouts"]
+SETS = ["plain", "spans", "unbalanced", "px-novideo", "two-langs", "empty", "scc", "styled", "unbalanced-two", "unsorted", "spans-redefined", "two-layouts", "sami-read", "dfxp-read", "cells", "cells-swapped"]
 SEEDS = {"quick": ["0", "5"], "thorough": ["0", "1", "2", "3", "5", "8", "13", "21"]}
 VERIF = os.path.dirname(os.path.dirname(os.path.dirname(os.path.abspath(__file__))))
 
@@ -51,20 +51,20 @@ def bounds(tier):
 
 def opts_for(w):
     if w == "WebVTTWriter":
-        return [{}, {"lang": "last"}, {"init": {"relativize": False}}, {"init": {"video_width": 640, "video_height": 360}}, {"init": {"video_width": 1280, "video_height": 720, "fit_to_screen": False}}]
+        return [{}, {"lang": "last"}, {"init": {"relativize": False}}, {"init": {"video_width": 640, "video_height": 360}}, {"init": {"video_width": 1280, "video_height": 720, "fit_to_screen": False}}, {"init": {"video_width": 360, "video_height": 360}}]
     if w in ("DFXPWriter", "SinglePositioningDFXPWriter"):
-        return [{}, {"force": "last"}, {"init": {"fit_to_screen": False}}, {"init": {"video_width": 640, "video_height": 360}}]
+        return [{}, {"force": "last"}, {"init": {"fit_to_screen": False}}, {"init": {"video_width": 640, "video_height": 360}}, {"init": {"video_width": 360, "video_height": 360}}]
     if w == "LegacyDFXPWriter":
         return [{}, {"force": "last"}]
     if w == "SAMIWriter":
-        return [{}, {"init": {"relativize": False, "fit_to_screen": False}}]
+        return [{}, {"init": {"relativize": False, "fit_to_screen": False}}, {"init": {"video_width": 360, "video_height": 360}}]
     return [{}]
 
 
 def make_set(name):
     import pycaption
     from pycaption import Caption, CaptionList, CaptionNode, CaptionSet
-    from pycaption.geometry import Alignment, HorizontalAlignmentEnum, Layout, Padding, Point, Size, UnitEnum, VerticalAlignmentEnum
+    from pycaption.geometry import Alignment, HorizontalAlignmentEnum, Layout, Padding, Point, Size, Stretch, UnitEnum, VerticalAlignmentEnum
 
     T, B, S = CaptionNode.create_text, CaptionNode.create_break, CaptionNode.create_style
     P = UnitEnum.PERCENT
@@ -106,6 +106,26 @@ def make_set(name):
     if name == "scc":
         doc = "Scenarist_SCC V1.0\n\n00:00:01:02\t94ae 94ae 9420 9420 9470 9470 c8e5 ecec ef80 91ae 91ae f7ef f2ec 6480 942f 942f\n\n00:00:03:11\t942c 942c\n\n00:00:04:00\t94ae 9420 1370 c1c2 94d0 c3c4 942f\n\n"
         return pycaption.SCCReader().read(doc)
+    if name in ("cells", "cells-swapped"):
+        # the same cell counts on the other axis (square video: both axes relate to the same number of pixels)
+        a, b = (6, 3) if name == "cells" else (3, 6)
+        L = Layout(origin=Point(Size(a, UnitEnum.CELL), Size(b, UnitEnum.CELL)), extent=Stretch(Size(2 * a, UnitEnum.CELL), Size(b, UnitEnum.CELL)))
+        return CaptionSet({"en-US": CaptionList([cap(0, [T("in cells")], layout_info=L), cap(1, [T("plain")])])})
+    if name == "sami-read":
+        # a set as the SAMI reader builds it in this very process (inline declarations, class rules with several properties)
+        doc = ('<SAMI><HEAD><STYLE TYPE="text/css"><!--\nP { margin-left: 2%; font-family: Arial; }\n.ENCC {Name: English; lang: en-US;}\n'
+               '.S1 { color: red; font-style: italic; text-align: right; }\n--></STYLE></HEAD><BODY>\n'
+               '<SYNC start="1000"><P class="ENCC"><span style="font-style:italic;color:blue;font-weight:bold;text-decoration:underline;">styled</span> text</P></SYNC>\n'
+               '<SYNC start="2000"><P class="ENCC" style="text-align:right;color:green;font-size:10px;">second <span class="S1">cls</span></P></SYNC>\n'
+               '<SYNC start="3000"><P class="ENCC">&nbsp;</P></SYNC></BODY></SAMI>')
+        return pycaption.SAMIReader().read(doc)
+    if name == "dfxp-read":
+        doc = ('<?xml version="1.0" encoding="utf-8"?><tt xml:lang="en" xmlns="http://www.w3.org/ns/ttml" xmlns:tts="http://www.w3.org/ns/ttml#styling"><head><styling>'
+               '<style xml:id="s1" tts:color="red" tts:fontStyle="italic" tts:fontFamily="Arial"/><style xml:id="s2" tts:textAlign="center" tts:fontSize="10px"/><style xml:id="s3" tts:fontWeight="bold"/></styling>'
+               '<layout><region xml:id="r1" tts:origin="10% 20%" tts:extent="30% 40%" tts:padding="1% 2% 3% 4%" tts:textAlign="right" tts:displayAlign="before"/><region xml:id="r2" tts:origin="50% 60%"/></layout></head><body><div xml:lang="en">'
+               '<p begin="00:00:01.000" end="00:00:02.000" region="r1" style="s1 s2 s3">one <span tts:fontStyle="italic" tts:color="blue" tts:textDecoration="underline" region="r2">two</span></p>'
+               '<p begin="00:00:03.000" end="00:00:04.000" style="s2">three<br/>four</p></div></body></tt>')
+        return pycaption.DFXPReader().read(doc)
     if name == "styled":
         L1 = Layout(origin=Point(Size(10, P), Size(10, P)), alignment=Alignment(HorizontalAlignmentEnum.CENTER, VerticalAlignmentEnum.TOP))
         L2 = Layout(padding=Padding(before=Size(1, P), after=Size(2, P), start=Size(3, P), end=Size(4, P)))
